@@ -279,7 +279,12 @@ def shard(ctx):
     def body(case):
         iso3, options = case
         run_real(ctx, iso3, options, "c18_%d_%d" % (ctx.shard, ctx.evaluations))
-    drive(ctx, case_strategy(), body, 40 if thorough else 3, shrink=False, tag="runs")
+    # the hand-offs only exist when feed or biofuel are demanded: half of the runs are drawn with a schedule that demands them
+    from checks.c03 import strategy as feeding_strategy
+    drive(ctx, st.one_of(case_strategy(), feeding_strategy()), body, 40 if thorough else 5, shrink=False, tag="runs")
+    # the extreme rows of the input table (population-dependent branches sit there), feed continued so that every hand-off is exercised
+    model.run_fixed(ctx, model.extreme_cases(shutoff="continued") + model.extreme_cases(),
+                    lambda iso, o, k: (ctx.count(), run_real(ctx, iso, o, "c18x_%s_%d" % (iso, k))))
 
 
 def replay(case, ctx):
